@@ -80,10 +80,13 @@ class PythonModelGenerator(IndentPrintMixin):
         rule_specs = {rule.name: self._base_class_specs(rule) for rule in grammar.rules}
         rule_specs = {name: specs for name, specs in rule_specs.items() if specs}
 
-        specs_by_name = {
-            s.class_name: s.base for specs in rule_specs.values() for s in specs
-        }
         base = self._model_base_name()
+        specs_by_name: dict[str, str] = {}
+        for specs in rule_specs.values():
+            for s in specs:
+                # NOTE: a base declared in one rule (B::C) is not lost when another rule ends its chain at the class (D::B)
+                if specs_by_name.get(s.class_name, base) == base:
+                    specs_by_name[s.class_name] = s.base
         specs_by_name[base] = basetype_name
 
         all_specs = {
